@@ -24,42 +24,58 @@ ALPHA = "abcdefghijklmnopqrstuvwxyzABCDEFGHIJKLMNOPQRSTUVWXYZ0123456789.,!?'-"
 MSG_HEAD = "32 character limit for caption cue in scc file.\nLines longer than 32:\n"
 
 
-def rand_row_text(rng, n):
-    if n == 0:
-        return ""
-    cs = [rng.choice(ALPHA) for _ in range(n)]
-    for i in range(1, n - 1):
-        if rng.random() < 0.15:
-            cs[i] = " "
-    return "".join(cs)
+def rand_row(rng, n):
+    """a row of n displayed characters drawn from every code of the basic / special / extended tables:
+    (tokens, text shown on a 608 screen per the independent tables of sccgen)"""
+    toks = g.rand_tokens(rng, n) if n else []
+    return toks, g.tokens_text(toks)
 
 
 def rand_len(rng, p_long):
     r = rng.random()
     if r < p_long:
         return rng.choice([33, 34, 40, rng.randint(33, 40)])
-    if r < p_long + 0.25:
-        return rng.choice(LENS[:6])
+    if r < p_long + 0.08:
+        return 0                                        # a preamble with no text (empty row)
+    if r < p_long + 0.28:
+        return rng.choice(LENS[1:6])
     return rng.randint(1, 32)
 
 
-def gen_group(rng):
-    """-> (mode, doubled, loads, k) : loads = list of lists of (row, text); load k is the permuted one"""
-    mode = rng.choice(["pop", "pop", "paint", "roll2", "roll3", "roll4"])
-    doubled = rng.random() < 0.6
+def mk_row(rng, row, n):
+    toks, text = rand_row(rng, n)
+    return (row, text, toks)
+
+
+def gen_group(rng, shape=None, mode=None, doubled=None):
+    """-> (mode, doubled, loads, k) : loads = list of lists of (row, text, tokens); load k is the permuted one"""
+    mode = mode or rng.choice(["pop", "pop", "paint", "roll2", "roll3", "roll4"])
+    doubled = (rng.random() < 0.6) if doubled is None else doubled
     nloads = rng.randint(1, 3)
     k = rng.randrange(nloads)
     p_long = rng.choice([0.0, 0.15, 0.3, 0.5])
     loads = []
     for i in range(nloads):
+        if i == k and (shape == "break+repos" or (shape is None and rng.random() < 0.1)):
+            # a row with text, an EMPTY row exactly one row below it, then a non-adjacent long row: a pending line
+            # break and a pending repositioning at once
+            r0 = rng.randint(1, 13)
+            far = rng.choice([r for r in range(1, 16) if abs(r - r0) > 2])
+            loads.append([mk_row(rng, r0, rng.randint(1, 20)), (r0 + 1, "", []), mk_row(rng, far, rng.choice([33, 34]))])
+            continue
         nrows = rng.choice([2, 2, 3, 3, 4]) if i == k else rng.choice([1, 1, 2])
         if rng.random() < 0.3:
             start = rng.randint(1, 16 - nrows)           # adjacent rows: lines of one caption (in ascending order)
             rows = list(range(start, start + nrows))
         else:
             rows = rng.sample(range(1, 16), nrows)
-        loads.append([(r, rand_row_text(rng, rand_len(rng, p_long))) for r in rows])
+        loads.append([mk_row(rng, r, rand_len(rng, p_long)) for r in rows])
     return mode, doubled, loads, k
+
+
+def flash_stream():
+    """a stream on which read() raises the timing error (a caption displayed for one frame)"""
+    return g.doc([(g.timecode(60, False), [g.ENM, g.RCL, g.pac(15)] + g.text_words("flash") + [g.EOC, g.EDM])])
 
 
 def build_stream(mode, doubled, loads):
@@ -73,8 +89,8 @@ def build_stream(mode, doubled, loads):
             ws += g.dbl([g.RDC], doubled)
         else:
             ws += g.dbl([{"roll2": g.RU2, "roll3": g.RU3, "roll4": g.RU4}[mode], g.CR], doubled)
-        for row, text in load:
-            ws += g.dbl([g.pac(row)], doubled) + g.text_words(text)
+        for row, text, toks in load:
+            ws += g.dbl([g.pac(row)], doubled) + g.tokens_words(toks, doubled)
         if mode == "pop":
             ws += g.dbl([g.EOC], doubled)
         lines.append((g.timecode(t, False), ws))
@@ -84,9 +100,9 @@ def build_stream(mode, doubled, loads):
     return g.doc(lines)
 
 
-def observe(stream):
+def observe(stream, r=None):
     """-> (kind, payload, stash)  kind: 'ok' (payload = returned caps), 'len' (payload = message), 'err' (code)"""
-    r = SCCReader()
+    r = r or SCCReader()
     res = impl.call(lambda: r.read(stream))
     st = impl.call(lambda: [(c.format_start(), "".join(c.get_text_nodes())) for c in r.caption_stash.get_all()])
     stash = st.v if isinstance(st, Ok) else None
@@ -105,14 +121,18 @@ def wire_caps(caps):
 def run(ctx):
     rng = ctx.rng
     res = {"evaluations": 0, "nontrivial": set(), "violations": [], "disagreements": [], "distribution": {},
-           "streams": 3, "notes": []}
+           "streams": 4, "notes": []}
     dist = {"mode": {}, "perm_group_sizes": {}, "outcome": {"ok": 0, "len": 0, "no-captions": 0},
             "shared_start_streams": 0, "rows_over_32": 0, "rows_at_32_or_33": 0, "stash_unavailable": 0}
     res["distribution"] = dist
     cases = []       # (gid, mode, doubled, loads, stream)
     ngroups = ctx.n(140, 4000)
-    for gid in range(ngroups):
-        mode, doubled, loads, k = gen_group(rng)
+    fixed = [("break+repos", m, d) for m in ("pop", "paint", "roll2", "roll3", "roll4") for d in (False, True)]
+    for gid in range(ngroups + len(fixed)):
+        if gid < len(fixed):
+            mode, doubled, loads, k = gen_group(rng, *fixed[gid])
+        else:
+            mode, doubled, loads, k = gen_group(rng)
         perms = list(itertools.permutations(loads[k]))
         dist["perm_group_sizes"][len(perms)] = dist["perm_group_sizes"].get(len(perms), 0) + 1
         dist["mode"][mode] = dist["mode"].get(mode, 0) + 1
@@ -127,6 +147,9 @@ def run(ctx):
         out = Some(payload) if kind == "len" else None
         reqs.append((1500, wire_caps(caps)))
         reqs.append((1501, [wire_caps(payload if kind == "ok" else caps), out]))
+        # the statement's own reading: the outcome is decided by the TRANSMITTED rows (their characters per the
+        # independent CEA-608 tables): error iff some transmitted row has more than 32 characters, naming its full text
+        reqs.append((1501, [[["", t] for l in loads for (_, t, _) in l if t != ""], out]))
     ans = oracle_batch(reqs)
     # second correspondence stream: the FULL decoder model (request 600) on the same streams: outcome + exact message
     full = sccobs.model_batch([(c[4], 0) for c in cases])
@@ -144,13 +167,14 @@ def run(ctx):
     by_group = {}
     for i, ((gid, mode, doubled, loads, stream), (kind, payload, stash)) in enumerate(zip(cases, obs)):
         res["evaluations"] += 1
-        model = r_opt(ans[2 * i])
-        ok = ans[2 * i + 1]
-        rows = [t for l in loads for (_, t) in l if t != ""]
+        model = r_opt(ans[3 * i])
+        ok = ans[3 * i + 1]
+        ok_rows = ans[3 * i + 2]
+        rows = [t for l in loads for (_, t, _) in l if t != ""]
         nlong = sum(1 for t in rows if len(t) > 32)
         dist["rows_over_32"] += nlong
         dist["rows_at_32_or_33"] += sum(1 for t in rows if len(t) in (32, 33))
-        desc = {"mode": mode, "doubled": doubled, "loads": loads}
+        desc = {"mode": mode, "doubled": doubled, "loads": [[(r, t) for (r, t, _) in l] for l in loads]}
         if kind == "err":
             if payload == 1 and not rows:
                 dist["outcome"]["no-captions"] += 1
@@ -180,6 +204,16 @@ def run(ctx):
                                           "what": "line-length error raised but it does not name every stored line "
                                                   "longer than 32 (or no stored line is longer than 32)"})
             continue
+        if ok_rows != 1:
+            longrows = [t for t in rows if len(t) > 32]
+            res["violations"].append({
+                "kind": "long-row-silent" if kind == "ok" else "error-misses-row", "replay": "rows", "stream": stream,
+                "rows": rows, "input": desc, "impl_message": payload if kind == "len" else None,
+                "what": (f"a transmitted row of {len(longrows[0])} characters was returned silently (no line-length "
+                         f"error): {longrows[0]!r}" if kind == "ok" and longrows else
+                         "the line-length error does not name every transmitted row longer than 32 characters with "
+                         "its full text (or no transmitted row is longer than 32)")})
+            continue
         # correspondence with the model (exact message)
         impl_out = payload if kind == "len" else None
         if stash is not None and model != impl_out:
@@ -190,6 +224,39 @@ def run(ctx):
             if got != sorted(rows):
                 res["disagreements"].append({"stream": stream, "input": desc, "what": "stored lines differ from the "
                                              "transmitted rows", "impl": got, "expected": sorted(rows)})
+    # HISTORIES: one reader object reads a first stream (which may raise the line-length or the timing error) and then
+    # a second one: the second outcome must be that of a fresh reader and must be decided by the second stream's rows
+    hist = []
+    pool = [c for c in cases]
+    for _ in range(ctx.n(150, 3000)):
+        first = rng.choice([None, None, "flash"])
+        c1 = rng.choice(pool) if first is None else None
+        s1 = c1[4] if c1 else flash_stream()
+        c2 = rng.choice(pool)
+        hist.append((s1, c2))
+    hreq = []
+    hobs = []
+    for s1, c2 in hist:
+        r = SCCReader()
+        k1, _, _ = observe(s1, r)
+        k2, p2, _ = observe(c2[4], r)
+        fk, fp, _ = observe(c2[4])
+        hobs.append((k1, k2, p2, fk, fp))
+        hreq.append((1501, [[["", t] for l in c2[3] for (_, t, _) in l if t != ""], Some(p2) if k2 == "len" else None]))
+    hans = oracle_batch(hreq)
+    dist["histories"] = {"total": len(hist), "first_raised_length": 0, "first_raised_timing": 0, "first_ok": 0}
+    for (s1, c2), (k1, k2, p2, fk, fp), okh in zip(hist, hobs, hans):
+        res["evaluations"] += 1
+        dist["histories"]["first_raised_length" if k1 == "len" else ("first_ok" if k1 == "ok" else "first_raised_timing")] += 1
+        rows2 = [t for l in c2[3] for (_, t, _) in l if t != ""]
+        if k2 == "err" and p2 == 1 and not rows2:
+            continue
+        if (k2, p2) != (fk, fp):
+            res["violations"].append({
+                "kind": "history-dependent", "replay": "history", "stream": s1, "stream2": c2[4], "rows": rows2,
+                "input": {"first_outcome": k1, "second": {"mode": c2[1], "rows": rows2}},
+                "what": f"a reader that had read another stream ({k1}) reads this stream as {k2} "
+                        f"({str(p2)[:80]!r}); a fresh reader gives {fk}: the outcome must depend on this stream's rows only"})
     for gid, l in by_group.items():
         kinds = set(k for k, _, _ in l)
         if len(kinds) > 1:
@@ -219,7 +286,19 @@ def run(ctx):
 
 
 def replay(ctx, rec):
+    if rec.get("replay") == "history":
+        r = SCCReader()
+        k1, _, _ = observe(rec["stream"], r)
+        k2, p2, _ = observe(rec["stream2"], r)
+        fk, fp, _ = observe(rec["stream2"])
+        okh = oracle1(1501, [[["", t] for t in rec["rows"]], Some(p2) if k2 == "len" else None])
+        return (k2, p2) != (fk, fp) or okh != 1, f"after {k1}: {k2} {str(p2)[:200]!r}; fresh: {fk}"
     kind, payload, stash = observe(rec["stream"])
+    if rec.get("replay") == "rows":
+        if kind == "err":
+            return True, f"raised {impl.ERR_NAMES.get(payload, payload)}"
+        okr = oracle1(1501, [[["", t] for t in rec["rows"]], Some(payload) if kind == "len" else None])
+        return okr != 1, f"outcome {kind}: {payload!r}"[:600]
     if rec.get("replay") == "pair":
         kind2, _, _ = observe(rec["stream2"])
         return kind != kind2, f"first order: {kind}, second order: {kind2}"
